@@ -141,7 +141,7 @@ def make_recording(root, rec):
 # --------------------------------------------------------------------------
 # the implementation
 # --------------------------------------------------------------------------
-def impl_convert(ap, W, extra, nshank=None):
+def impl_convert(ap, W, extra, nshank=None, default_window=False):
     """Runs the real NP2Converter on `ap` with window W.  Returns per-output-file observations read
     back from the bytes and metadata of *.lf.bin, or {'error': ...}."""
     import spikeglx
@@ -159,7 +159,7 @@ def impl_convert(ap, W, extra, nshank=None):
         out["shanks"] = [int(s) for s in cm["shank"]]
         out["version"] = {"NP2.1": 21, "NP2.4": 24}.get(spikeglx._get_neuropixel_version_from_meta(m), 0)
         conv = NP2Converter(ap, post_check=False, compress=False)
-        conv.init_params(nwindow=W, extra=extra, nshank=nshank)
+        conv.init_params(nwindow=W if not default_window else None, extra=extra, nshank=nshank)
         status = conv.process(overwrite=True)
         out["status"] = int(status)
         for sh, info in conv.shank_info.items():
@@ -220,6 +220,8 @@ SOS = scipy.signal.butter(N=2, Wn=1000 / 2500 / 2, btype="lowpass", output="sos"
 def reference(dat):
     """zero-phase low-pass of the whole AP trace then every 12th sample, float64, in LSB."""
     x = dat[:, :384].astype(np.float64)
+    if x.shape[0] <= 9:          # shorter than sosfiltfilt's padding: no reference (and no interior)
+        return np.zeros((cdiv(x.shape[0], RATIO), 384))
     return scipy.signal.sosfiltfilt(SOS, x, axis=0)[::RATIO]
 
 
@@ -269,6 +271,15 @@ def oracle_file(rec, W, dat, ref, fo, meas):
             r, c = np.unravel_index(int(np.argmax(dev)), dev.shape)
             bad.append(("values", "LF sample %d channel %d differs from whole-trace low-pass + decimation by %.3f LSB"
                         % (lo + r, chns[c], mx)))
+    # how far from the two file ends the stream deviates from the whole-trace reference by more than the
+    # bound (the property allows this only "at the edges"): measured, bound EDGE/12 rows
+    devall = np.abs(raw[:, :-1].astype(np.float64) - ref[:, chns[:-1]]).max(axis=1) > LSB_BOUND
+    idx = np.flatnonzero(devall)
+    if idx.size:
+        half = nrows // 2
+        head = int(idx[idx < half].max()) + 1 if (idx < half).any() else 0
+        tail = nrows - int(idx[idx >= half].min()) if (idx >= half).any() else 0
+        meas["edge_extent_rows_max"] = max(meas.get("edge_extent_rows_max", 0), head, tail)
     return bad
 
 
@@ -282,7 +293,12 @@ def sync_params(rec):
 def decode_positions(rec, col):
     off, _, inv = sync_params(rec)
     w = col.astype(np.int64) & 0xFFFF
-    return [int(v) for v in ((w - off) * inv) % 65536]
+    r = ((w - off) * inv) % 65536            # AP position modulo 2^16, exact
+    # recordings longer than 2^16 samples: the lap is taken nearest to 12*m (the residue mod 2^16 stays exact;
+    # an error of a whole multiple of 65536 samples would show in the value comparison instead)
+    exp = RATIO * np.arange(r.size, dtype=np.int64)
+    r = r + 65536 * np.round((exp - r) / 65536.0).astype(np.int64)
+    return [int(v) for v in r]
 
 
 def meta_ns_of(ap_meta):
@@ -348,6 +364,8 @@ def gen_recordings(ctx):
         ws = [w for w in ws]
         fs = "30000" if i % 2 == 0 else "29999.757983"
         rec(kind, ns, contents[i % len(contents)], smap, fs, ws)
+    # (a') the default window (2 s) with a recording long enough for several windows
+    rec("NP21", (190000 if ctx.thorough() else 61000) + rng.randrange(1, 12), "walk", "fixture", "29999.757983", [60000])
     # (b) boundary lengths (small, cheap): around every constant of the code and the window seams
     bl = set()
     for w in (588, 600, 1200):
@@ -383,13 +401,13 @@ def run_group(ctx, rec, tmp, cases, meas, dist):
     root = Path(tmp) / ("g%d" % len(cases))
     try:
         ap, dat = make_recording(root, rec)
-        ref = reference(dat) if rec["ns"] > 2 * EDGE else None
+        ref = reference(dat)
         ns = rec["ns"]
         outs = []
         for iw, W in enumerate(rec["windows"]):
             desc = {k: rec[k] for k in ("kind", "ns", "content", "shankmap", "fs", "seed", "sync_off", "sync_mul", "nshank")}
             desc["W"] = W
-            obs = impl_convert(ap, W, "_w%d" % iw, rec["nshank"])
+            obs = impl_convert(ap, W, "_w%d" % iw, rec["nshank"], default_window=(W == 60000))
             admissible = W % RATIO == 0 and W > OVERLAP
             dist["conversions"] += 1
             dist[rec["kind"]] += 1
@@ -411,7 +429,7 @@ def run_group(ctx, rec, tmp, cases, meas, dist):
                     ctx.disagree("inadmissible window accepted", desc)
                 bad = []
                 for fo in obs["files"]:
-                    b = oracle_file(rec, W, dat, ref if ref is not None else np.zeros((0, 384)), fo, meas)
+                    b = oracle_file(rec, W, dat, ref, fo, meas)
                     bad += [(c, "shank %d: %s" % (fo["sh"], msg)) for c, msg in b]
                 for clause, msg in bad[:3]:
                     ctx.fail(msg, desc, {"kind": clause})
@@ -465,6 +483,7 @@ def run(ctx):
         meas["interior_excess_over_rounding_lsb"] = max(0.0, meas["interior_max_abs_dev_lsb"] - 0.5)
         meas["interior_excess_bound_lsb"] = LSB_BOUND - 0.5
         meas["interior_definition"] = "LF rows m with %d <= 12 m < ns - %d" % (EDGE, EDGE)
+        meas["edge_extent_rows_bound"] = EDGE // RATIO
     ctx.measurements.update(meas)
     nontrivial = {(tuple(c["inp"][:3]), c["desc"]["seed"]) for c in cases if c["nwin"] > 1 and c["out"] != [0]}
     dist["multi_window"] = sum(1 for c in cases if c["nwin"] > 1)
